@@ -61,9 +61,9 @@ Proof.
   assert (Hout : forall r f, In f (file_sinks_of_step r s) -> ~ not_succ s' r ->
                              output_ok f s = true -> output_ok f s' = true).
   { intros r f Hf Hns Hok. unfold output_ok in *. rewrite Hdet.
-    destruct (is_detached (KFile, f) s); [reflexivity|]. cbn [orb] in *.
+    destruct (is_detached (KFile, f) s) eqn:Edf; [reflexivity|]. cbn [orb] in *.
     destruct (Ff f) as [E|[B O]]; [rewrite E; exact Hok|].
-    exfalso. apply Hns. destruct (C f B O) as [_ Hp]. apply Hp. exact Hf. }
+    exfalso. apply Hns. destruct (C f B O) as [_ Hp]. apply (Hp Edf). exact Hf. }
   split; [exact Hu'|]. split; [exact (single_producer_Mk _ _ M Hsp)|]. split.
   - intros r' Hr' Hs' Hd' Hne.
     assert (Hst' : sstate_of (sl r') s' = Some SSucceeded).
@@ -157,7 +157,7 @@ Proof.
   assert (Hsinks : forall r, file_sinks_of_step r s1 = file_sinks_of_step r s).
   { intros r. unfold file_sinks_of_step, sinks_of. rewrite Dd. reflexivity. }
   split; [unfold unique_labels; rewrite St; exact Hu|]. split.
-  { intros g l1 l2 A B. rewrite Hsinks in A, B. exact (Hsp g l1 l2 A B). }
+  { exact (single_producer_same_graph s s1 G Hsp). }
   split.
   - intros r Hr Hs Hd Hne. rewrite St in Hr. rewrite Hdet in Hd.
     destruct (HK r Hr Hs Hd Hne) as (Hha & Hi & Ho). split; [|split].
@@ -230,7 +230,7 @@ Proof.
   set (todo := file_products_in l is_outdated s1) in *.
   assert (HB1 : Bundle l todo s1).
   { split; [unfold unique_labels, s1; rewrite (map_sl_upd_step l g s Hg); exact Hu|].
-    split; [exact Hsp|]. split.
+    split; [apply (single_producer_same_graph s s1); [repeat split|exact Hsp]|]. split.
     - intros r' Hr' Hs' Hd' Hne. unfold s1, upd_step in Hr'. cbn [steps set_steps] in Hr'.
       apply in_map_iff in Hr'. destruct Hr' as (r & Hr & Hin').
       destruct (str_eqb (sl r) l) eqn:E.
